@@ -3,8 +3,11 @@
 
    H   : HMAC-SHA256 under the BNG's secret, an arbitrary function argument
    e   : environment of a run (H, cookie lifetime, wall clock, subscriber-group matcher)
-   Repaired / Defective : model variants; Repaired has the two repairs of fixes/C04_*.patch,
-   Defective is the code as found. *)
+   variant = four flags (owner check, id-0 guard, id reservation, guarded index removal).
+   Repaired = all four; Head = /repo HEAD (first two, committed as b12b708 / 731c2cc); HeadReserve = Head + id
+   reservation; Defective = none (the code as first found).
+   reserving v = id-0 guard and reservation present; owning v = reserving v and owner check present.
+   alive s x = x is in sidIndex or sessions, or has been built by a handlePADR that has not indexed it yet. *)
 From Coq Require Import List ZArith NArith Bool Lia Arith.
 From stdpp Require Import gmap nmap.
 From OV Require Import C04.Model C04.Proofs.
@@ -126,6 +129,20 @@ Theorem C04_padr_rejected_no_state : forall v e s t p s' r, step v e s (PADR t p
 Proof. exact padr_rejected_no_state. Qed.
 Print Assumptions C04_padr_rejected_no_state.
 
+(* the same two facts for a PADR that is interleaved with others (its first half, up to allocateSessionID) *)
+Theorem C04_pbegin_needs_cookie : forall v e s t p s' sid uid,
+  step v e s (PBEGIN t p) = Some (s', OPend sid uid) ->
+  exists tg, parse_tags p = Ok tg /\
+    validate (e_H e) (e_ttl e) (e_now_ns e) (t_cookie tg) t = true /\ e_grp e t = true.
+Proof. exact pbegin_needs_cookie. Qed.
+Print Assumptions C04_pbegin_needs_cookie.
+
+Theorem C04_pbegin_rejected_no_state : forall v e s t p s' r, step v e s (PBEGIN t p) = Some (s', r) ->
+  (forall tg, parse_tags p = Ok tg -> validate (e_H e) (e_ttl e) (e_now_ns e) (t_cookie tg) t = false) ->
+  s' = s /\ r = ONone.
+Proof. exact pbegin_rejected_no_state. Qed.
+Print Assumptions C04_pbegin_rejected_no_state.
+
 (* in ANY table state (any earlier history, this very PADR already answered or not) a PADR whose cookie
    has outlived the lifetime creates nothing, in every variant *)
 Theorem C04_padr_expired_no_state : forall v e s t p tg a b c4 d s' r,
@@ -147,6 +164,14 @@ Theorem C04_admission : forall v e s t p s' sid uid issued,
 Proof. exact admission. Qed.
 Print Assumptions C04_admission.
 
+Theorem C04_admission_interleaved : forall v e s t p s' sid uid issued,
+  (forall tg d, parse_tags p = Ok tg -> firstn 32 (t_cookie tg) = e_H e d -> In d (map enc_issue issued)) ->
+  Forall wf_issue issued -> wf_tuple t ->
+  step v e s (PBEGIN t p) = Some (s', OPend sid uid) ->
+  exists ts, In (t, ts) issued /\ (e_now_ns e - Z.of_N ts * ns_per_s <= e_ttl e)%Z.
+Proof. exact admission_pend. Qed.
+Print Assumptions C04_admission_interleaved.
+
 Example C04_admission_nonvacuous :
   (forall tg d, parse_tags padrOne = Ok tg -> firstn 32 (t_cookie tg) = oneH d -> In d (map enc_issue [(tA, 1000)])) /\
   Forall wf_issue [(tA, 1000)] /\ wf_tuple tA /\
@@ -156,80 +181,182 @@ Example C04_admission_nonvacuous :
 Proof. exact admission_nonvacuous. Qed.
 Print Assumptions C04_admission_nonvacuous.
 
-(* every session object that becomes live comes from an answered PADR or from a restore *)
-Theorem C04_sessions_only_from_padr : forall v e s o s' r x, step v e s o = Some (s', r) -> live s' x ->
-  live s x \/ (exists p, o = PADR (s_tup x) p /\ r = OPads (s_sid x) (s_uid x)) \/ o = RESTORE (s_sid x) (s_tup x).
-Proof. exact step_new_live. Qed.
+(* every session object that becomes alive comes from a PADR whose cookie validated (whole, or its first half)
+   or from a restore; in every variant *)
+Theorem C04_sessions_only_from_padr : forall v e s o s' r x, step v e s o = Some (s', r) -> alive s' x ->
+  alive s x \/ (exists p, (o = PADR (s_tup x) p /\ r = OPads (s_sid x) (s_uid x)) \/
+                          (o = PBEGIN (s_tup x) p /\ r = OPend (s_sid x) (s_uid x))) \/
+  (exists a, o = RESTORE (s_sid x) (s_tup x) a).
+Proof. exact step_new_alive. Qed.
 Print Assumptions C04_sessions_only_from_padr.
 
 (* ---------------------------------------------------------------- session ids *)
-(* after any history (any packets, restores of fresh non-zero ids, any counter position, any
-   number of long-lived sessions, across the 16-bit wrap) live sessions have pairwise
-   distinct, non-zero ids *)
-Theorem C04_sid_distinct_nonzero : forall e ops s outs x y,
-  run Repaired e st0 ops = Some (s, outs) -> live s x -> live s y ->
+(* after ANY history — any packets, restores of fresh non-zero ids, any counter position, any number of
+   long-lived sessions, across the 16-bit wrap, and ANY interleaving of the two halves (allocation / indexing)
+   of any number of concurrent PADRs — all sessions alive in the table have pairwise distinct ids in 1..65535.
+   Holds for every variant with the id-0 guard and id reservation (Repaired, HeadReserve). *)
+Theorem C04_sid_distinct_nonzero : forall v e ops s outs x y, reserving v ->
+  run v e st0 ops = Some (s, outs) -> alive s x -> alive s y ->
   0 < s_sid x < 65536 /\ (s_sid x = s_sid y -> x = y).
 Proof. exact sid_distinct_nonzero. Qed.
 Print Assumptions C04_sid_distinct_nonzero.
 
+(* /repo HEAD (no reservation yet): the same for every history in which no two PADRs overlap between
+   allocateSessionID and addToIndexes — the hypothesis excludes exactly the recorded finding
+   concurrent-padr-same-session-id *)
+Theorem C04_sid_distinct_nonzero_head : forall e ops s outs x y, Forall no_overlap ops ->
+  run Head e st0 ops = Some (s, outs) -> alive s x -> alive s y ->
+  0 < s_sid x < 65536 /\ (s_sid x = s_sid y -> x = y).
+Proof. exact sid_distinct_nonzero_head. Qed.
+Print Assumptions C04_sid_distinct_nonzero_head.
+
+(* HEAD, the excluded schedule: exactly one id k free, two PADRs with valid cookies both pass
+   allocateSessionID before either indexes: both are answered with k, and after both have indexed two
+   sessions in the table carry the same session-id.  (Replayed on the real code: harness op P with a gate
+   in the AccessResolver; corpus / FULLSCALE case; known finding concurrent-padr-same-session-id.) *)
+Theorem C04_race_refuted : forall v e s tA tB pA pB tgA tgB k,
+  v_reserve v = false -> 0 < norm_next v (next s) < 65536 -> 0 < k < 65536 -> pend s = [] ->
+  by_sid s !! k = None -> (forall j, 0 < j < 65536 -> j <> k -> by_sid s !! j <> None) ->
+  parse_tags pA = Ok tgA -> validate (e_H e) (e_ttl e) (e_now_ns e) (t_cookie tgA) tA = true -> e_grp e tA = true ->
+  parse_tags pB = Ok tgB -> validate (e_H e) (e_ttl e) (e_now_ns e) (t_cookie tgB) tB = true -> e_grp e tB = true ->
+  tA <> tB ->
+  exists s4 x y,
+    run v e s [PBEGIN tA pA; PBEGIN tB pB; PCOMMIT (ctr s); PCOMMIT (N.succ (ctr s))] =
+      Some (s4, [OPend k (ctr s); OPend k (N.succ (ctr s)); OPads k (ctr s); OPads k (N.succ (ctr s))]) /\
+    by_tup s4 !! tA = Some x /\ by_tup s4 !! tB = Some y /\ x <> y /\ s_sid x = k /\ s_sid y = k.
+Proof. exact race_last_free_id. Qed.
+Print Assumptions C04_race_refuted.
+
+Example C04_interleaving_nonvacuous :
+  match run Repaired env0 st0 [PBEGIN tA (add_tag TagACCookie (generate toyH 1000 tA));
+                               PBEGIN tB (add_tag TagACCookie (generate toyH 1000 tB)); PCOMMIT 1; PCOMMIT 0] with
+  | Some (s, outs) => outs = [OPend 1 0; OPend 2 1; OPads 2 1; OPads 1 0] /\ pend s = []
+  | None => False
+  end.
+Proof. exact interleaving_nonvacuous. Qed.
+Print Assumptions C04_interleaving_nonvacuous.
+
 (* the invariant behind it is inductive from any table that satisfies it *)
-Theorem C04_table_invariant : forall e s o s' r, Inv s -> step Repaired e s o = Some (s', r) -> Inv s'.
+Theorem C04_table_invariant : forall v e s o s' r, reserving v -> Inv s -> step v e s o = Some (s', r) -> Inv s'.
 Proof. exact step_Inv. Qed.
 Print Assumptions C04_table_invariant.
 
-(* not by never allocating: while one of the 65535 ids is free a valid PADR gets a free,
-   non-zero one, wherever the counter stands (the scan never runs out of fuel) *)
-Theorem C04_sid_alloc_complete : forall e s t p tg, Inv s -> parse_tags p = Ok tg ->
+(* not by never allocating: while one of the 65535 ids is neither indexed nor reserved a valid PADR gets
+   such an id, non-zero, wherever the counter stands (the scan never runs out of fuel) *)
+Theorem C04_sid_alloc_complete : forall v e s t p tg, reserving v -> Inv s -> parse_tags p = Ok tg ->
   validate (e_H e) (e_ttl e) (e_now_ns e) (t_cookie tg) t = true -> e_grp e t = true ->
-  (exists j, 0 < j < 65536 /\ by_sid s !! j = None) ->
-  exists s' sid, step Repaired e s (PADR t p) = Some (s', OPads sid (ctr s)) /\ 0 < sid < 65536 /\
-    by_sid s !! sid = None /\ by_sid s' !! sid = Some {| s_uid := ctr s; s_sid := sid; s_tup := t |}.
+  (exists j, 0 < j < 65536 /\ id_used v s j = false) ->
+  exists s' sid, step v e s (PADR t p) = Some (s', OPads sid (ctr s)) /\ 0 < sid < 65536 /\
+    id_used v s sid = false /\ by_sid s' !! sid = Some {| s_uid := ctr s; s_sid := sid; s_tup := t |}.
 Proof. exact padr_creates_when_room. Qed.
 Print Assumptions C04_sid_alloc_complete.
 
-(* id space full: no session, indexes untouched (repaired) *)
-Theorem C04_sid_full : forall e s t p s' r, Inv s -> (forall j, 0 < j < 65536 -> by_sid s !! j <> None) ->
-  step Repaired e s (PADR t p) = Some (s', r) -> r = ONone /\ by_sid s' = by_sid s /\ by_tup s' = by_tup s.
+(* id space full: no session, indexes untouched *)
+Theorem C04_sid_full : forall v e s t p s' r, reserving v -> Inv s ->
+  (forall j, 0 < j < 65536 -> id_used v s j = true) ->
+  step v e s (PADR t p) = Some (s', r) ->
+  r = ONone /\ by_sid s' = by_sid s /\ by_tup s' = by_tup s /\ pend s' = pend s.
 Proof. exact padr_full_repaired. Qed.
 Print Assumptions C04_sid_full.
 
-(* id space full, code as found: the PADR is answered with session-id 0 *)
-Theorem C04_sid_full_refuted : forall e s t p tg, 0 < next s < 65536 ->
-  (forall j, 0 < j < 65536 -> by_sid s !! j <> None) ->
+(* id space full, the code as first found (no id-0 guard; fixed by 731c2cc): answered with session-id 0 *)
+Theorem C04_sid_full_refuted : forall v e s t p tg, v_sid_guard v = false -> 0 < next s < 65536 ->
+  (forall j, 0 < j < 65536 -> id_used v s j = true) ->
   parse_tags p = Ok tg -> validate (e_H e) (e_ttl e) (e_now_ns e) (t_cookie tg) t = true -> e_grp e t = true ->
-  exists s', step Defective e s (PADR t p) = Some (s', OPads 0 (ctr s)) /\
+  exists s', step v e s (PADR t p) = Some (s', OPads 0 (ctr s)) /\
     by_sid s' !! 0 = Some {| s_uid := ctr s; s_sid := 0; s_tup := t |}.
 Proof. exact padr_full_defective. Qed.
 Print Assumptions C04_sid_full_refuted.
 
-(* code as found: restore of id 0xFFFF, then a PADR: a live session with id 0 *)
+(* the code as first found: restore of id 0xFFFF, then a PADR: a live session with id 0 *)
 Theorem C04_sid_nonzero_refuted : exists e ops s outs x,
   run Defective e st0 ops = Some (s, outs) /\ live s x /\ s_sid x = 0 /\ outs = [ORestored 0; OPads 0 1].
 Proof. exact sid_nonzero_refuted. Qed.
 Print Assumptions C04_sid_nonzero_refuted.
 
 (* ---------------------------------------------------------------- isolation *)
-(* a packet from tuple t (PADI, PADR, PADT, session-stage) leaves every session of another
-   tuple where it is in both indexes, creates sessions for t only, and the session it
+(* sidIndex and sessions (the lookup paths of PADT and session-stage packets): a packet from tuple t
+   (PADI, PADR or its first half, PADT, any session-stage packet incl. one that sets the Username) leaves every
+   session of another tuple where it is, creates / reserves sessions for t only, and the session it
    terminates or reaches (if any) belongs to t *)
-Theorem C04_isolation : forall e s o s' r t, Inv s -> sender o = Some t -> step Repaired e s o = Some (s', r) ->
+Theorem C04_isolation : forall v e s o s' r t, owning v -> Inv s -> sender o = Some t -> step v e s o = Some (s', r) ->
+  (forall k x, by_sid s !! k = Some x -> s_tup x <> t -> by_sid s' !! k = Some x) /\
+  (forall t', t' <> t -> by_tup s' !! t' = by_tup s !! t') /\
+  (forall k x, by_sid s' !! k = Some x -> by_sid s !! k = Some x \/ s_tup x = t) /\
+  (forall x, In x (pend s') -> In x (pend s) \/ s_tup x = t) /\
+  (forall u, r = OTerm u \/ r = OReach u -> exists x, live s x /\ s_uid x = u /\ s_tup x = t).
+Proof. exact isolation_core. Qed.
+Print Assumptions C04_isolation.
+
+(* every other index through which a session can be reached or lose an entry: sessionIDIndex /
+   acctSessionIndex (by_uidx) and usernameIndex / ipv4Index / ipv6Index (by_attr, keyed by a value stored in the
+   session, which the sender can make equal to another session's).  With guarded removal the packet leaves
+   every entry that points to a session of another tuple alone, and only ever rewrites the Username of a
+   session of its own tuple *)
+Theorem C04_isolation_indexes : forall v e s o s' r t, owning v -> v_guard_remove v = true -> Inv s ->
+  sender o = Some t -> step v e s o = Some (s', r) ->
+  (forall k x, by_uidx s !! k = Some x -> s_tup x <> t -> by_uidx s' !! k = Some x) /\
+  (forall a x, by_attr s !! a = Some x -> s_tup x <> t -> by_attr s' !! a = Some x) /\
+  (attr_of s' = attr_of s \/
+   exists sid x a, by_sid s !! sid = Some x /\ s_tup x = t /\ attr_of s' = <[ s_uid x := a ]> (attr_of s)).
+Proof. exact isolation_idx. Qed.
+Print Assumptions C04_isolation_indexes.
+
+(* the second half of a PADR touches only the new session's own, so far empty, slots *)
+Theorem C04_commit_isolation : forall v e s u s' r, Inv s -> step v e s (PCOMMIT u) = Some (s', r) ->
+  exists x, In x (pend s) /\ s_uid x = u /\ r = OPads (s_sid x) u /\
+    by_sid s !! s_sid x = None /\ by_uidx s !! u = None /\
+    (forall k, k <> s_sid x -> by_sid s' !! k = by_sid s !! k) /\
+    (forall t, t <> s_tup x -> by_tup s' !! t = by_tup s !! t) /\
+    (forall k, k <> u -> by_uidx s' !! k = by_uidx s !! k) /\
+    by_attr s' = by_attr s /\ attr_of s' = attr_of s /\
+    (forall y, In y (pend s') -> In y (pend s)).
+Proof. exact commit_isolation. Qed.
+Print Assumptions C04_commit_isolation.
+
+(* over histories: whatever other hosts send, in any order and interleaving, a session stays in place in
+   every index *)
+Theorem C04_isolation_history : forall v e t0, owning v -> v_guard_remove v = true -> forall ops s s' outs k x,
+  Inv s -> by_sid s !! k = Some x -> s_tup x = t0 -> (forall y, In y (pend s) -> s_tup y <> t0) ->
+  Forall (foreign t0) ops ->
+  run v e s ops = Some (s', outs) ->
+  by_sid s' !! k = Some x /\ by_tup s' !! t0 = by_tup s !! t0 /\
+  (by_uidx s !! s_uid x = Some x -> by_uidx s' !! s_uid x = Some x) /\
+  (forall a, by_attr s !! a = Some x -> by_attr s' !! a = Some x).
+Proof. exact isolation_run. Qed.
+Print Assumptions C04_isolation_history.
+
+(* /repo HEAD (owner check committed; removal not yet guarded): isolation on sidIndex / sessions, the two
+   indexes PADT and session packets look a session up in; PADRs not overlapping *)
+Theorem C04_isolation_head : forall e s o s' r t, pend s = [] -> no_overlap o -> Inv s -> sender o = Some t ->
+  step Head e s o = Some (s', r) ->
   (forall k x, by_sid s !! k = Some x -> s_tup x <> t -> by_sid s' !! k = Some x) /\
   (forall t', t' <> t -> by_tup s' !! t' = by_tup s !! t') /\
   (forall k x, by_sid s' !! k = Some x -> by_sid s !! k = Some x \/ s_tup x = t) /\
   (forall u, r = OTerm u \/ r = OReach u -> exists x, live s x /\ s_uid x = u /\ s_tup x = t).
-Proof. exact isolation. Qed.
-Print Assumptions C04_isolation.
+Proof. exact isolation_head. Qed.
+Print Assumptions C04_isolation_head.
 
-(* over histories: whatever other hosts send, in any order, a session stays in place *)
-Theorem C04_isolation_history : forall e t0 ops s s' outs k x,
-  Inv s -> by_sid s !! k = Some x -> s_tup x = t0 ->
-  Forall (fun o => exists t, sender o = Some t /\ t <> t0) ops ->
-  run Repaired e s ops = Some (s', outs) ->
-  by_sid s' !! k = Some x /\ by_tup s' !! t0 = by_tup s !! t0.
-Proof. exact isolation_run. Qed.
-Print Assumptions C04_isolation_history.
+(* HEAD, what the unguarded removal allows: host A gives its own session host B's Username (CHAP Response,
+   stored before AAA answers) and PADTs its own session; B's usernameIndex entry is gone although B's session
+   is untouched in sidIndex.  Known finding remove-deletes-index-entry-of-another-session. *)
+Theorem C04_attr_remove_refuted : exists e ops s outs xB s' r,
+  run Head e st0 ops = Some (s, outs) /\ by_attr s !! bob = Some xB /\ s_tup xB = tB /\ tA <> tB /\
+  step Head e s (PADT tA 8) = Some (s', r) /\ by_attr s' !! bob = None /\ by_sid s' !! 7 = Some xB.
+Proof. exact attr_remove_refuted. Qed.
+Print Assumptions C04_attr_remove_refuted.
 
-(* code as found: host B's PADT with A's session-id terminates A's session ... *)
+Example C04_attr_remove_nonvacuous :
+  match run Repaired env0 st0 [RESTORE 7 tB bob; padr_of tA; SETATTR tB 8 bob; SETATTR tA 8 bob; PADT tA 8] with
+  | Some (s, [ORestored 0; OPads 8 1; ONone; OReach 1; OTerm 1]) =>
+      (exists x, by_attr s !! bob = Some x /\ s_tup x = tB) /\ by_sid s !! 8 = None
+  | _ => False
+  end.
+Proof. exact attr_remove_repaired. Qed.
+Print Assumptions C04_attr_remove_nonvacuous.
+
+(* the code as first found (no owner check; fixed by b12b708): host B's PADT with A's session-id terminates
+   A's session ... *)
 Theorem C04_isolation_padt_refuted : exists e ops s outs x s' r,
   run Repaired e st0 ops = Some (s, outs) /\ by_sid s !! 1 = Some x /\ s_tup x = tA /\ tA <> tB /\
   step Defective e s (PADT tB 1) = Some (s', r) /\ r = OTerm (s_uid x) /\ by_sid s' !! 1 = None.
@@ -255,7 +382,7 @@ Proof. exact history_nonvacuous. Qed.
 Print Assumptions C04_history_nonvacuous.
 
 Example C04_sid_after_restore_nonvacuous :
-  match run Repaired env0 st0 [RESTORE 65535 tA; padr_of tB] with
+  match run Repaired env0 st0 [RESTORE 65535 tA []; padr_of tB] with
   | Some (_, outs) => outs = [ORestored 0; OPads 1 1] | None => False end.
 Proof. exact sid_after_restore_repaired. Qed.
 Print Assumptions C04_sid_after_restore_nonvacuous.
